@@ -256,3 +256,15 @@ MANIFEST_TEXT["C16"] = dict(technique="runtime monitoring with fault injection: 
 MANIFEST_TEXT["C10"] = dict(technique="Go race detector (-race, halt_on_error=0, reports de-duplicated by the pair of innermost repo functions) over schedule-perturbed concurrent workloads; fatal-error scanner",
     design_ref="DESIGN.md §3.3, §5 C10", level_note="Trusted: the Go race detector; the harness adds synchronisation only at the boundary (fake ClientConn mutex, atomic.Value picker hand-over as in gRPC, channel hand-over of completions). Held = no report in the executions this run produced.",
     level_text="Exploration: every workload is built with -race and executed several times per configuration with different seeds; any DATA RACE report with a repo frame or a 'concurrent map' fatal error is a violation whose signature is the unordered pair of innermost repo functions; the evidence lists picks, placements, completed swaps and the operation-kind overlap pairs observed.")
+
+MANIFEST_TEXT["C01"]["level_text"] += " A second stage records client-boundary histories of concurrent BIND/UNBIND completions and keyed picks (3-8 goroutines, shared keys) and checks them for linearizability against a per-key register with porcupine (timeouts are inconclusive)."
+MANIFEST_TEXT["C01"]["technique"] = "runtime monitoring: shadow-model oracle over observed Pick/Done/NewSubConn events of generated pool histories; porcupine linearizability check of recorded concurrent histories"
+MANIFEST_TEXT["C02"]["level_text"] += " A concurrent stage (1 callback goroutine, 12 pick goroutines, 5 completer goroutines, yield-site perturbation, 7 feature configurations) checks conservation at quiescence: every placed call completed => every counter is zero, never negative."
+MANIFEST_TEXT["C03"]["level_text"] += " A concurrent stage adds the gate scenario toctou-grow (one pick held after it read the pool size while another grows the pool) and the maxSize bound sampled under the balancer's lock during stress."
+MANIFEST_TEXT["C05"]["level_text"] += " A concurrent stage runs the stress workload with stale pickers, many client-side deadline errors and factory failures; a crash of the child process is a violation whose signature is the panic class and innermost repo function."
+MANIFEST_TEXT["C06"]["level_text"] += " Waiting round-robin picks must be observed parked (not spinning) after every operation; a concurrent stage must finish (bounded by operations and time) or the goroutines blocked on repo locks are the witness."
+MANIFEST_TEXT["C09"]["level_text"] += " A concurrent stage issues exactly n*k round-robin BIND picks from 2-16 goroutines (up to 12 000 picks) on a fixed all-READY pool, interleaved with non-BIND picks: exactly k per channel."
+MANIFEST_TEXT["C13"]["level_text"] += " A second stage enumerates every op sequence of length 3 (quick) / 5 (thorough, ~5.2 M sequences) over an 15-17 letter alphabet on 3 endpoints for 6 (recovery, delay) configurations."
+MANIFEST_TEXT["C14"]["level_text"] += " A second stage enumerates every op sequence of length 3 (quick) / 5 (thorough, ~5.2 M sequences) over an 15-17 letter alphabet on 3 endpoints for 6 (recovery, delay) configurations, ending each in the constructed quiescent state."
+MANIFEST_TEXT["C12"]["level_text"] += " Gate scenarios hold the receiver right before cond.Wait while the context is cancelled (lost wake-up) and block the underlying stream's first SendMsg while a receiver waits."
+MANIFEST_TEXT["C16"]["level_text"] += " Rejected dial-failure updates are followed by a valid update that names the rolled-back endpoints; a directed scenario removes the target of a pending delayed switch."
